@@ -135,6 +135,11 @@ func ReadRespBody(resp *protocol.Response, r network.Reader, maxBodySize int) (e
 		if err != nil && err != io.EOF {
 			return err
 		}
+		if err == io.EOF {
+			// the peer closed before the end of the message: the body is handed out, the
+			// connection cannot serve another exchange
+			resp.Header.SetConnectionClose(true)
+		}
 	}
 	resp.Header.SetContentLength(len(bodyBuf.B))
 	return nil
